@@ -70,6 +70,16 @@ var ruleRe = regexp.MustCompile(`\[(?:violated|undecided)\] ([A-Za-z0-9.\-]+)\|`
 
 func selfValidate(prop, repo, verif string) []seedResult {
 	dirs, _ := filepath.Glob(filepath.Join(verif, "seeded", prop+"-*"))
+	return runVariants(prop, repo, verif, dirs)
+}
+
+// benignValidate: every committed behaviour-preserving change must leave the check silent.
+func benignValidate(prop, repo, verif string) []seedResult {
+	dirs, _ := filepath.Glob(filepath.Join(verif, "benign", "*"))
+	return runVariants(prop, repo, verif, dirs)
+}
+
+func runVariants(prop, repo, verif string, dirs []string) []seedResult {
 	sort.Strings(dirs)
 	res := make([]seedResult, len(dirs))
 	var wg sync.WaitGroup
@@ -152,6 +162,26 @@ func thoroughExtras(prop, repo, verif string, noEvidence bool) (int, map[string]
 	extra["self_validation"] = sv
 	extra["self_validation_reported"] = rep
 	extra["self_validation_total"] = len(sv)
+	fmt.Println("== thorough: self-validation against the committed behaviour-preserving changes (must stay silent)")
+	bv := benignValidate(prop, repo, verif)
+	silent := 0
+	for _, b := range bv {
+		if b.Reported {
+			fmt.Printf("SELF-VALIDATION: benign change %s raises an alarm [%s] %s\n", b.Seed, strings.Join(b.Rules, ", "), b.Note)
+		} else {
+			silent++
+		}
+	}
+	fmt.Printf("SELF-VALIDATION: %d of %d behaviour-preserving changes leave this check silent\n", silent, len(bv))
+	extra["benign_changes_silent"] = silent
+	extra["benign_changes_total"] = len(bv)
+	var noisy []seedResult
+	for _, b := range bv {
+		if b.Reported {
+			noisy = append(noisy, b)
+		}
+	}
+	extra["benign_changes_alarming"] = noisy
 	fmt.Println("== thorough: analysis of the current tree (host configuration)")
 	return 0, extra
 }
